@@ -465,6 +465,27 @@ _INFO = _re.compile(r"^\x1b\[31m(.*)\x1b\[0m$", _re.S)
 _EROW = _re.compile(r"^\x1b\[34m(.*?)\x1b\[0m *\x1b\[92m(.*?)\x1b\[0m\x1b\[33m = (.*)\x1b\[0m$", _re.S)
 
 
+def stream_shaped(evs):
+    """the hypothesis of the printers' totality theorem (Lean `shapedB`), evaluated on the real events: every value is of a
+    primitive class, and the events that directly follow a `list[BYTE]` event as its children carry values"""
+    from tpmstream.common.util import is_list
+    from tpmstream.spec.structures.base_types import BYTE
+    for i, p in enumerate(evs):
+        if not isinstance(p, MarshalEvent):
+            continue
+        if p.value is not ... and not hasattr(p.value, "to_bytes"):
+            return False
+        if is_list(p.type) and p.type.__args__[0] is BYTE:
+            for c in evs[i + 1:]:
+                if not isinstance(c, MarshalEvent):
+                    continue
+                if not (p.path[:-1] == c.path[:-1] and p.path[-1].name == c.path[-1].name):
+                    break
+                if c.value is ...:
+                    return False
+    return True
+
+
 def impl_print(mode, tname, cc, enc, data):
     """rows of Pretty.unmarshal and Events.unmarshal over the events of a decode (real code), canonical"""
     from tpmstream.io.events import Events
@@ -516,6 +537,7 @@ def impl_print(mode, tname, cc, enc, data):
     except Exception as e:  # noqa
         out.append(f"P crash {type(e).__name__}")
     out.append(f"U {reenc} {len(evs)}")
+    out.append(f"K {1 if stream_shaped(evs) else 0}")
     used = [False] * len(infos)
     try:
         for line in Events.unmarshal(iter(evs)):
